@@ -115,9 +115,16 @@ async def transfer(net, hyg, plan):
     async def wr(stream, code, lines="", list=False):
         if code == "226" and state.get("uploading"):
             mon["reply_after_close"] += 1
-            if w.ctl.open_handles:
+            try:
+                port_ = stream.writer.transport.get_extra_info("peername")[1]
+            except Exception:
+                port_ = None
+            # the session that gets this 226 must have closed what it opened (other sessions may be reading the file meanwhile,
+            # and their own 226 says nothing about the upload)
+            writing = [h for h in w.ctl.open_handles if h[3] == port_]
+            if writing:
                 viol.append({"key": "226-before-file-closed",
-                             "msg": f"226 written while back-end handles are open: {w.ctl.open_handles[:2]}"})
+                             "msg": f"226 written while back-end handles are open: {writing[:2]}"})
         return await orig_wr(stream, code, lines, list)
     w.server.write_response = wr
     state = {}
@@ -188,15 +195,42 @@ async def transfer(net, hyg, plan):
             opener = c.upload_stream if op == "STOR" else c.append_stream
             state["uploading"] = True
             err = None
+            mid_reader = None
+            reading = asyncio.Event()
+
+            async def read_meanwhile():
+                # another session downloads the file while the upload is under way (whatever it gets is not judged; what
+                # everybody sees after the completion reply is)
+                cm = aioftp.Client(path_io_factory=aioftp.MemoryPathIO)
+                await cm.connect("127.0.0.1", 2121)
+                await cm.login()
+                try:
+                    async with cm.download_stream("/d/f.bin") as sm:
+                        reading.set()
+                        async for _b in sm.iter_by_block(512):
+                            pass
+                except aioftp.StatusCodeError:
+                    pass
+                reading.set()
+                await cm.quit()
             try:
                 async with opener("/d/f.bin", offset=k) as s:
                     pos = 0
-                    for n in plan["chunks"]:
+                    for ci, n in enumerate(plan["chunks"]):
                         await s.write(payload[pos:pos + n])
                         pos += n
+                        if plan.get("read_during_upload") and ci == 0 and old is not None:
+                            mid_reader = asyncio.ensure_future(read_meanwhile())
+                            try:
+                                await asyncio.wait_for(reading.wait(), 5)      # the download has started (its file is open)
+                            except asyncio.TimeoutError:
+                                pass
             except (aioftp.StatusCodeError, ConnectionError) as e:
                 err = e
             state["uploading"] = False
+            if mid_reader is not None:
+                await asyncio.wait([mid_reader], timeout=30)
+                mon["read_during_upload"] = mon.get("read_during_upload", 0) + 1
             mon["upload_model"] += 1
             if want is None:
                 refused = isinstance(err, ConnectionError) or (err is not None and "451" in [str(x) for x in err.received_codes])
@@ -411,6 +445,8 @@ def gen_cases(tier, seed):
             plan["append_meanwhile"] = rng.random() < 0.4
         if rng.random() < 0.3 and size + olds < 40000:
             plan["observer"] = True
+        if op != "RETR" and old_size and rng.random() < 0.4:
+            plan["read_during_upload"] = True
         if rng.random() < 0.3 and size + olds < 40000:
             plan["history"] = [[rng.choice(["STOR", "APPE", "STOR", "APPE", "DELE", "REPLACE"]), rng.choice([0, 0, 3, max(0, olds // 3)]),
                                 rng.choice([0, 5, 300, bs + 1])] for _ in range(rng.randint(1, 3))]
@@ -462,6 +498,15 @@ def gen_cases(tier, seed):
                         "history": hist, "observer": j % 3 == 0}
                 plan["chunks"] = [11] if op != "RETR" else []
                 plans.append(plan)
+    j = 0
+    for off, size in ((3, 5), (0, 40), (10, 30), (20, 20)):
+        for backend in ("memory", "pathio"):
+            j += 1
+            plan = {"seed": seed * 23 + j, "op": "STOR", "size": size, "old_size": 40, "offset": off, "block_size": 512,
+                    "kind": CONTENT[j % len(CONTENT)], "old_kind": CONTENT[(j + 1) % len(CONTENT)], "backend": backend, "passive": "epsv",
+                    "passive2": "pasv", "mss": [1460, 1460, 1460], "lat": [0.0005], "reads": [512], "throttle": None, "backend_delay": 0,
+                    "read_during_upload": True, "chunks": [max(1, size // 2), size - max(1, size // 2)] if size > 1 else [size]}
+            plans.append(plan)
     # client-side limits with the less common call shapes: read() to end of file in one call, one big write()
     j = 0
     for thr in ({"c_read_speed_limit": 1000}, {"c_read_speed_limit": 5000, "s_write_speed_limit": 20000}, {"c_write_speed_limit": 2000},
